@@ -181,7 +181,14 @@ impl HexNumber {
     /// Computes the actual numerical value represented by this hexadecimal number.
     pub fn compute_value(&self) -> f64 {
         if let Some((exponent, _)) = self.exponent {
-            (self.integer * 2_u64.pow(exponent)) as f64
+            if self.integer == 0 {
+                0.0
+            } else {
+                // scale in floating point: `integer * 2^exponent` does not fit in an integer
+                // for valid literals such as `0x1p64`
+                let exponent = exponent.min(i32::MAX as u32) as i32;
+                (self.integer as f64) * 2_f64.powi(exponent)
+            }
         } else {
             self.integer as f64
         }
